@@ -697,6 +697,12 @@ func (g *gen) doInstr(fn *ssa.Function, fid int, b *ssa.BasicBlock, in ssa.Instr
 			g.gwrites = append(g.gwrites, fn.String()+" writes "+x.Addr.String()+" @"+g.pos(x.Pos()))
 		}
 	case *ssa.MapUpdate:
+		{
+			// inserting compares the key with the keys already there
+			iid := g.ins(x.Pos(), fn, "compare map-update")
+			g.cmps = append(g.cmps, cmp{iid, []int{g.val(x.Map), g.val(x.Key)}, "map-update"})
+			g.inblk = append(g.inblk, [4]int{1, iid, fid, b.Index + 1})
+		}
 		g.edge(g.val(x.Key), g.val(x.Map))
 		g.edge(g.val(x.Value), g.val(x.Map))
 	case *ssa.Send:
@@ -727,6 +733,13 @@ func (g *gen) doInstr(fn *ssa.Function, fid int, b *ssa.BasicBlock, in ssa.Instr
 		g.edge(g.val(x.X), g.val(x))
 	case *ssa.Lookup:
 		g.edge(g.val(x.X), g.val(x))
+		if _, isMap := x.X.Type().Underlying().(*types.Map); isMap {
+			// a map look-up hashes the key and compares it with the stored keys (an early-exit memequal): a comparison
+			// of the index with what the map holds
+			iid := g.ins(x.Pos(), fn, "compare map-lookup")
+			g.cmps = append(g.cmps, cmp{iid, []int{g.val(x.X), g.val(x.Index)}, "map-lookup"})
+			g.inblk = append(g.inblk, [4]int{1, iid, fid, b.Index + 1})
+		}
 	case *ssa.Convert:
 		if textType(x.X.Type()) && textType(x.Type()) || isPtrLike(x.X.Type()) && isPtrLike(x.Type()) {
 			g.move(g.val(x.X), g.exact(g.val(x))) // string <-> []byte, pointer <-> unsafe.Pointer: same bytes, same length
